@@ -327,6 +327,14 @@ SUBS = [
         what="use_jsonclass disabled: plain JSON decoding, nothing imported or constructed"),
 ]
 
+from vlib import fuzzdrv  # noqa: E402
+
+SUBS.append(
+    Sub("atheris", oracle_random_on, external=fuzzdrv.campaign("c08", "c08", max_len=64),
+        budget={"quick": 20000, "thorough": 2000000}, shards={"quick": 2, "thorough": 8},
+        time_cap={"quick": 100, "thorough": 1500},
+        what="coverage-guided fuzzing (atheris) of class names: validation-before-import oracle"))
+
 CLAIM = {
     "technique": "property-based testing with import observers (audit hook, __import__ wrappers, canary modules) and exhaustive enumeration of short class names",
     "text": "Generated-input search: exhaustive short names over a representative alphabet, Unicode names and canary paths with injected invalid characters, malformed descriptors, at generated depths, on client and server side, with class translation on and off; observers decide 'nothing imported or constructed', json.loads decides 'plain decoding', the reply decides -32700.",
